@@ -11,6 +11,18 @@ Definition permute {A} (p : list nat) (l : list A) : list A :=
   flat_map (fun i => match nth_error l i with Some x => [x] | None => [] end) p.
 Definition on_ok {A} (r : result A) (f : A -> bool) : bool := match r with Ok a => f a | Err _ => true end.
 
+(* Python dicts compare without order: bring value / detail dicts into the order of a name list *)
+Definition reorder {V} (names : list str) (d : list (str * V)) : list (str * V) :=
+  flat_map (fun k => match assoc k d with Some v => [(k, v)] | None => [] end) names.
+Definition norm_cell (fn names : list str) (c : cell) : cell :=
+  let m := cmeta c in
+  mkCell (ckind c) (ps c) (pe c) (ev c) (prev c)
+    (mkMeta (risk_basis m) (country m) (currency m) (reinsurance_basis m) (loss_definition m)
+            (per_occurrence_limit m) (reorder names (details m)) (reorder names (loss_details m)))
+    (reorder fn (cvals c)).
+Definition norm_res (fn names : list str) (r : result (list cell)) : result (list cell) :=
+  match r with Ok l => Ok (map (norm_cell fn names) l) | Err e => Err e end.
+
 (* ---------------- wide / long frames ---------------- *)
 Record fcase := mkF {
   f_cells : list cell; f_fields : list str; f_dcols : list str; f_lcols : list str;
@@ -19,11 +31,13 @@ Record fcase := mkF {
   f_rwide : result (list cell);         (* wide reader (frame and CSV agree, checked in Python) *)
   f_rlong : result (list cell);         (* long reader with loss_detail_cols *)
   f_rlongcsv : result (list cell);      (* long CSV entry point (no loss_detail_cols) *)
+  f_names : list str;                  (* sorted detail + loss-detail names *)
   f_pw : list nat; f_pl : list nat;     (* row permutations applied before reading *)
   f_in_hyps : bool }.
 
 Definition check_fcase (c : fcase) : list bool :=
   let t := f_cells c in
+  let result_cells_eqb a b := result_cells_eqb (norm_res (f_fields c) (f_names c) a) (norm_res (f_fields c) (f_names c) b) in
   [ Bool.eqb (frame_hyps (f_fields c) (f_dcols c) (f_lcols c) t) (f_in_hyps c);
     (* writers: model table = implementation table *)
     result_table_eqb (to_wide_rows (f_fields c) (f_dcols c) (f_lcols c) t) (f_wide c);
@@ -49,7 +63,10 @@ Definition aframe_eqb (x y : aframe) : bool :=
   && list_eqb (pair_eqb Z.eqb (list_eqb (opt_eqb Z.eqb))) (af_rows x) (af_rows y).
 Definition check_acase (c : acase) : list bool :=
   [ result_eqb aframe_eqb (to_array (a_cells c) (a_field c)) (a_frame c);
-    on_ok (a_frame c) (fun af => result_cells_eqb (from_array af (a_field c) (a_res c) (a_meta c)) (a_back c));
+    (* the printer of implementation results turns every number into a float: floatify the model side too *)
+    on_ok (a_frame c) (fun af => result_cells_eqb
+       (bind (match a_res c with Some r => Ok r | None => infer_resolution af end)
+             (fun r => Ok (floatify (from_array af (a_field c) r (a_meta c))))) (a_back c));
     negb (a_in_hyps c) || result_cells_eqb (Ok (floatify (a_cells c))) (a_back c) ].
 
 (* ---------------- matrix ---------------- *)
@@ -74,7 +91,7 @@ Definition check_mcase (c : mcase) : list bool :=
     | _, _ => false
     end;
     match mm with
-    | Ok m => result_cells_eqb (Ok (matrix_to_triangle mspec m)) (mc_back c)
+    | Ok m => result_cells_eqb (Ok (floatify (matrix_to_triangle mspec m))) (mc_back c)
     | Err _ => match mc_back c with Err _ => true | Ok _ => false end
     end;
     negb (mc_in_hyps c) || result_cells_eqb (Ok (floatify (mc_cells c))) (mc_back c) ].
